@@ -15,7 +15,7 @@ Fixpoint lookup (k : Z) (l : list (Z * Z)) : option Z :=
   match l with [] => None | (k', v) :: r => if Z.eqb k k' then Some v else lookup k r end.
 (* TopicConfig.partitions *)
 Definition partitions_for (def : Z) (over : list (Z * Z)) (topic : Z) : Z :=
-  match lookup topic over with Some n => n | None => def end.
+  tc_partitions {| tc_def := def; tc_over := over |} topic.
 
 Definition z3_eqb (a b : Z * Z * Z) := let '(a1, a2, a3) := a in let '(b1, b2, b3) := b in
   Z.eqb a1 b1 && Z.eqb a2 b2 && Z.eqb a3 b3.
@@ -45,7 +45,7 @@ Fixpoint final_expected (nexp : nat) (ms : list (Z * msg)) (succ : list (Z * Z *
   end.
 
 Record acase := {
-  ac_cfg : cfg; ac_sd : shutdown; ac_def : Z; ac_over : list (Z * Z);
+  ac_cfg : cfg; ac_sd : shutdown; ac_tc : list cfgop;   (* what was done to the TopicConfig before producing *)
   ac_exps : list expectation; ac_msgs : list (Z * msg);
   ac_succ : list (Z * Z * Z); ac_errs : list (Z * Z); ac_reports : list report;
   ac_np : list (Z * Z * Z);   (* partitioner log: (message id, partition count offered, topic the instance was constructed for) *)
@@ -72,7 +72,7 @@ Definition ok_async (a : acase) : bool :=
   let h := async_history_sd (ac_cfg a) (ac_sd a) (ac_exps a) (map snd (ac_msgs a)) in
   list_eqb z3_eqb (proj_succ h) (ac_succ a) && list_eqb z2_eqb (proj_errs h) (ac_errs a) &&
   list_eqb report_eqb (proj_reports h) (ac_reports a) &&
-  list_eqb z3_eqb (np_expected (ac_def a) (ac_over a) (length (ac_exps a)) (ac_msgs a)) (ac_np a) &&
+  list_eqb z3_eqb (np_expected (tc_def (tc_run (ac_tc a))) (tc_over (tc_run (ac_tc a))) (length (ac_exps a)) (ac_msgs a)) (ac_np a) &&
   (* the async mock looks the partitioner up before it looks for an expectation: every arriving message counts *)
   list_eqb Z.eqb (first_occ [] (map fst (ac_msgs a))) (ac_ctor a) &&
   list_eqb z2_eqb (proj_checks h) (ac_checks a) &&
@@ -93,7 +93,7 @@ Definition topics_of (c : ccall) : list (Z * Z) :=            (* message id -> t
 Definition sobs := (Z * Z * Z * list (Z * Z) * list report * list (Z * Z))%type.   (* last: checker calls (id, Partition seen) *)
 
 Record scase := {
-  sc_def : Z; sc_over : list (Z * Z);
+  sc_tc : list cfgop;
   sc_exps : list expectation; sc_calls : list ccall;
   sc_rets : list sobs;
   sc_close : list report;
@@ -122,7 +122,7 @@ Definition ok_sync (a : scase) : bool :=
   let '(s, outs) := run_calls (init (sc_exps a)) (map call_of (sc_calls a)) in
   list_eqb sobs_eqb (map callres_obs outs) (sc_rets a) &&
   list_eqb report_eqb (sync_close s) (sc_close a) &&
-  let np := np_of (sc_def a) (sc_over a) (flat_map topics_of (sc_calls a)) outs in
+  let np := np_of (tc_def (tc_run (sc_tc a))) (tc_over (tc_run (sc_tc a))) (flat_map topics_of (sc_calls a)) outs in
   list_eqb z3_eqb np (sc_np a) &&
   (* the sync mock constructs a topic's partitioner only for a message that found an expectation *)
   list_eqb Z.eqb (first_occ [] (map snd np)) (sc_ctor a).
